@@ -2,13 +2,14 @@
 import PhotVerif.Driver.All
 open PhotVerif PhotVerif.Driver
 
-partial def loop (h : IO.FS.Stream) (out : IO.FS.Stream) : IO Unit := do
+partial def loop (h : IO.FS.Stream) (out : IO.FS.Stream) (st : DState) : IO Unit := do
   let line ← h.getLine
   if line.isEmpty then return ()
-  out.putStrLn (dispatch line)
-  loop h out
+  let (st', r) := dispatch st line
+  out.putStrLn r
+  loop h out st'
 
 def main : IO Unit := do
   let out ← IO.getStdout
-  loop (← IO.getStdin) out
+  loop (← IO.getStdin) out {}
   out.flush
